@@ -8,6 +8,8 @@ ABTI_ythread *vf_new;                 /* the descriptor handed out by the alloca
 int vf_alloc_fail, vf_assoc_fail, vf_kset_fail, vf_calloc_fail;
 unsigned vf_allocs, vf_frees, vf_assocs, vf_ksets, vf_kfrees; const void *vf_freed, *vf_assoc_pool, *vf_assoc_thread;
 void *vf_ktable; /* table created by ktable_set_unsafe */
+const void *vf_sched_key_addr; /* = &g_thread_sched_key (set by the harness; statics are havocked by the instrumentation, so the key is identified by address) */
+void *vf_sched_val; /* value stored under the stackable-scheduler key (its destructor hands the scheduler's fate to the work unit) */
 #define ALLOC_CONTRACT                                                                               \
     __CPROVER_assigns(*pp_ythread, vf_allocs)                                                        \
     __CPROVER_ensures(vf_allocs == __CPROVER_old(vf_allocs) + 1)                                     \
@@ -30,8 +32,9 @@ static inline int ABTI_thread_init_pool(ABTI_global *g, ABTI_thread *p_thread, A
 static inline int ABTI_thread_set_associated_pool(ABTI_global *g, ABTI_thread *p_thread, ABTI_pool *p_pool) ASSOC_CONTRACT;
 
 static inline int ABTI_ktable_set_unsafe(ABTI_global *g, ABTI_local *l, ABTI_ktable **pp_ktable, ABTI_key *p_key, void *value)
-__CPROVER_assigns(*pp_ktable, vf_ksets)
+__CPROVER_assigns(*pp_ktable, vf_ksets, vf_sched_val)
 __CPROVER_ensures(vf_ksets == __CPROVER_old(vf_ksets) + 1)
+__CPROVER_ensures((!vf_kset_fail && p_key == vf_sched_key_addr) ? vf_sched_val == value : vf_sched_val == __CPROVER_old(vf_sched_val))
 __CPROVER_ensures(vf_kset_fail ? __CPROVER_return_value == ABT_ERR_MEM : (__CPROVER_return_value == ABT_SUCCESS && *pp_ktable == (ABTI_ktable *)vf_ktable && vf_ktable != NULL));
 static inline int ABTU_calloc(size_t num, size_t size, void **p_ptr)
 __CPROVER_assigns(*p_ptr)
@@ -39,7 +42,12 @@ __CPROVER_ensures(vf_calloc_fail ? (__CPROVER_return_value == ABT_ERR_MEM) : (__
 
 #include <thread.c>
 
-void ABTI_ktable_free(ABTI_global *g, ABTI_local *l, ABTI_ktable *t) { vf_kfrees++; }
+/* ABTI_ktable_free runs the destructor of every key that holds a non-NULL value (C16 ktable_free units); the one that
+ * matters here is the REAL destructor of the stackable-scheduler key */
+static unsigned n_sched_free; void ABTI_sched_free(ABTI_global *g, ABTI_local *l, ABTI_sched *s, ABT_bool force) { n_sched_free++; }
+ABTI_global *gp_ABTI_global; ABTI_local *ABTI_local_get_local_uninlined(void) { return NULL; }
+static ABTI_sched sch;
+void ABTI_ktable_free(ABTI_global *g, ABTI_local *l, ABTI_ktable *t) { vf_kfrees++; if (vf_sched_val) { __CPROVER_assert(vf_sched_val == (void *)&sch, "the value under the scheduler key is the scheduler"); vf_sched_val = NULL; thread_key_destructor_stackable_sched(&sch); } }
 static unsigned n_push; static const void *push_pool; static ABT_unit push_unit; static int push_ctx;
 static void stub_push(ABT_pool p, ABT_unit u, ABT_pool_context c) { n_push++; push_pool = p; push_unit = u; push_ctx = (int)c; }
 static ABTI_global glob; static ABTI_pool pool; static ABTI_ythread newy; static void work(void *a) {} static int the_arg;
@@ -53,7 +61,8 @@ void h_ythread_create(void)
     static char ustack[256]; { int us; attr.p_stack = us ? ustack : NULL; if (us) VF_ASSUME(attr.stacksize <= sizeof(ustack)); } /* a user stack is a valid block of the stated size (A9) */
     int op; VF_ASSUME(op == THREAD_POOL_OP_NONE || op == THREAD_POOL_OP_PUSH || op == THREAD_POOL_OP_INIT);
     ABTI_thread_type ty; VF_ASSUME((ty & ~(ABTI_THREAD_TYPE_YIELDABLE | ABTI_THREAD_TYPE_NAMED | ABTI_THREAD_TYPE_MAIN_SCHED | ABTI_THREAD_TYPE_PRIMARY)) == 0);
-    ABTI_sched sch; int use_sched; ABTI_sched *ps = use_sched ? &sch : NULL;
+    { ABTI_sched ns; sch = ns; } vf_sched_key_addr = &g_thread_sched_key; VF_ASSUME(sch.automatic == ABT_TRUE || sch.automatic == ABT_FALSE); int use_sched; ABTI_sched *ps = use_sched ? &sch : NULL;
+    sch.p_ythread = NULL; /* a scheduler handed to a new ULT is not in use yet (checked by the callers) */ ABTI_sched_used used0 = sch.used; n_sched_free = 0; vf_sched_val = NULL; gp_ABTI_global = &glob;
     ABTI_ythread *out = (ABTI_ythread *)0x77;
     newy.thread.type = ABTI_THREAD_TYPE_MEM_MEMPOOL_DESC; /* set by the allocator */
     int r = ythread_create(&glob, NULL, &pool, work, &the_arg, pa, ty, ps, (thread_pool_op_kind)op, &out);
@@ -62,15 +71,18 @@ void h_ythread_create(void)
         VF_ASSERT(newy.thread.state.val == ABT_THREAD_STATE_READY && newy.thread.request.val == 0 && newy.thread.p_last_xstream == NULL && newy.thread.p_parent == NULL, "READY, no pending request, never scheduled");
         VF_ASSERT(newy.thread.p_pool == &pool && (newy.thread.type & ty) == ty, "associated with the requested pool; requested kind bits set");
         VF_ASSERT(op == THREAD_POOL_OP_PUSH ? (n_push == 1 && push_pool == (void *)&pool && push_unit == newy.thread.unit && push_ctx == (int)ABT_POOL_CONTEXT_OP_THREAD_CREATE) : n_push == 0, "pushed exactly once iff asked to (PUSH), never for INIT/NONE");
-        VF_ASSERT(vf_frees == 0 && vf_kfrees == 0 && !vf_alloc_fail, "success: nothing released");
+        VF_ASSERT(vf_frees == 0 && vf_kfrees == 0 && !vf_alloc_fail && n_sched_free == 0, "success: nothing released");
+        VF_ASSERT((ps && !(ty & (ABTI_THREAD_TYPE_PRIMARY | ABTI_THREAD_TYPE_MAIN_SCHED))) ? vf_sched_val == ps : vf_sched_val == NULL, "a stackable scheduler is registered under the scheduler key of its ULT (freed with it), others are not");
     } else {
         VF_ASSERT(n_push == 0 && out == (ABTI_ythread *)0x77, "failure: nothing pushed, output handle untouched");
         VF_ASSERT(vf_alloc_fail ? vf_frees == 0 : (vf_frees == 1 && vf_freed == &newy.thread), "failure: the descriptor/stack obtained in this call is released exactly once (never if the allocation itself failed)");
         VF_ASSERT(vf_kfrees <= 1, "a key table created in this call is released at most once");
+        VF_ASSERT(n_sched_free == 0, "failure: the scheduler the work unit was to run still belongs to the caller -- it is NOT freed (a failed ABT_pool_add_sched leaves the caller's scheduler handle valid)");
+        VF_ASSERT(sch.p_ythread == NULL && (sch.used == used0 || sch.used == ABTI_SCHED_NOT_USED), "... and is not bound to a ULT (callers reset the 'used' mark themselves)");
     }
     VF_ASSERT((r != ABT_SUCCESS) ==> (vf_alloc_fail || vf_assoc_fail || vf_kset_fail || vf_calloc_fail), "fails only if some allocation / association failed (no spurious failure)");
     VF_REACH("ythread_create returns");
-    VF_COVER(r == ABT_SUCCESS && op == THREAD_POOL_OP_PUSH, "created and pushed"); VF_COVER(r != ABT_SUCCESS && !vf_alloc_fail && vf_assoc_fail, "association failed"); VF_COVER(r != ABT_SUCCESS && vf_alloc_fail, "alloc failed");
+    VF_COVER(r == ABT_SUCCESS && op == THREAD_POOL_OP_PUSH, "created and pushed"); VF_COVER(r != ABT_SUCCESS && !vf_alloc_fail && vf_assoc_fail, "association failed"); VF_COVER(r != ABT_SUCCESS && vf_alloc_fail, "alloc failed"); VF_COVER(r != ABT_SUCCESS && use_sched && vf_assoc_fail && !vf_kset_fail && !vf_alloc_fail && !(ty & (ABTI_THREAD_TYPE_PRIMARY | ABTI_THREAD_TYPE_MAIN_SCHED)) && sch.automatic, "stackable automatic scheduler, association failed");
 }
 
 void h_thread_revive(void)
